@@ -217,6 +217,7 @@ func init() {
 			z[0] = f.Name()
 			z[2] = makeReflectType(rtype{f.Type()})
 			z[3] = tag
+			z[5] = append([]value{}, a[1].([]value)...)
 		}
 		return z
 	}
